@@ -481,15 +481,169 @@ func c12BuildHistories(tier string) core.Source {
 	}}
 }
 
+// c12BuildRepeat: whole sessions between the real sender and the real
+// receiver, run twice over trees of boundary values; and the -c rule with the
+// real sender's list checksums for sizes around its read buffer.
+func c12BuildRepeat(tier string) core.Source {
+	drive.Quiet()
+	type cs struct {
+		arr  string
+		args []string
+		kind int // 0 repeat, 1 checksum rule
+	}
+	var cases []cs
+	for _, arr := range drive.Arrangements {
+		for _, args := range [][]string{{"-rt"}, {"-a"}, {"-rtc"}, {"-rlptD"}, {"-rtI"}, {"-rlt", "--delete"}} {
+			cases = append(cases, cs{arr, args, 0})
+		}
+		for _, args := range [][]string{{"-rc"}, {"-rtc"}, {"-rcI"}} {
+			cases = append(cases, cs{arr, args, 1})
+		}
+	}
+	mtimes := []struct{ sec, nsec int64 }{{0, 0}, {1, 0}, {-1, 0}, {-2, 500000000}, {-1 << 31, 0}, {1<<31 - 1, 0}, {1<<31 - 1, 999999999}, {tm.Past, 999999999}, {tm.Past, 1}, {86400 * 365 * 40, 123456789}}
+	return core.FuncSource{N: len(cases), F: func(i int) core.Result {
+		c := cases[i]
+		res := core.Result{Case: fmt.Sprintf("real sessions arr=%s args=%v kind=%s", c.arr, c.args, []string{"sync twice, second run must be a no-op", "checksum rule with the real sender's list checksums"}[c.kind])}
+		ff := []string{"part", "repeat", "arr", c.arr, "kind", fmt.Sprint(c.kind)}
+		var src, dst tm.Tree
+		if c.kind == 0 {
+			src = append(src, tm.D("d", 0o750, tm.Past))
+			for k, m := range mtimes {
+				for _, size := range []int{0, 700} {
+					e := tm.File(fmt.Sprintf("f%02d-%d", k, size), genData(famHash, size, uint32(k)), 0o640, m.sec)
+					e.Nsec = m.nsec
+					src = append(src, e)
+					if k%3 == 0 {
+						e2 := e
+						e2.Path = "d/" + e.Path
+						src = append(src, e2)
+					}
+				}
+			}
+			src = append(src, tm.L("link", "f00-700"), tm.L("d/dangling", "../nowhere"))
+			// prior destination: some files already there (stale), one extraneous
+			dst = tm.Tree{tm.File("f01-700", genData(famHash, 700, 999), 0o600, tm.Past-5), tm.File("extraneous", []byte("x"), 0o644, tm.Past)}
+		} else {
+			for k, size := range []int{0, 1, 64, 65, 700, 262143, 262144, 262145, 600001, 1 << 20} {
+				data := genData(famHash, size, uint32(100+k))
+				src = append(src, tm.File(fmt.Sprintf("same-%d", size), data, 0o644, tm.Past))
+				// same content, other mtime: -c says up to date
+				dst = append(dst, tm.File(fmt.Sprintf("same-%d", size), data, 0o644, tm.Past-777))
+				if size > 0 {
+					// same size and mtime, last (or first) byte differs: -c says transfer
+					for _, at := range []int{0, size - 1} {
+						other := append([]byte{}, data...)
+						other[at] ^= 0x20
+						n := fmt.Sprintf("diff-%d-at%d", size, at)
+						src = append(src, tm.File(n, data, 0o644, tm.Past))
+						dst = append(dst, tm.File(n, other, 0o644, tm.Past))
+					}
+				}
+			}
+		}
+		sc := &syncCase{Arr: c.arr, Args: c.args, Src: src, Dst: dst, Form: "contents"}
+		sr, err := sc.run(false)
+		defer cleanup(sr.Dir)
+		if err != nil {
+			res.Inconcl = err.Error()
+			return res
+		}
+		cnt(&res, "transitions", 1)
+		if !sr.Out.OK() {
+			res.Fail = core.Fail("session_failed", sr.Out.ErrString()+" | "+tail(sr.Out.Stderr, 300), ff...)
+			return res
+		}
+		e := effective(c.args)
+		if c.kind == 1 {
+			for _, s := range src {
+				a, b := sr.After.Find(s.Path), sr.Before.Find(s.Path)
+				if a == nil || b == nil {
+					res.Fail = core.Fail("file_missing", s.Path, ff...)
+					return res
+				}
+				cnt(&res, "states", 1)
+				// with -c the checksum decides for files of equal size, also under -I (the table part judges -cI the same way)
+				wantTransfer := strings.HasPrefix(s.Path, "diff-")
+				switch {
+				case wantTransfer && a.Ino == b.Ino:
+					res.Fail = core.Fail("not_transferred_but_rule_says_transfer", fmt.Sprintf("%q: same size, content differs (or -I), -c given: the file was left alone", s.Path), ff...)
+					return res
+				case !wantTransfer && a.Ino != b.Ino:
+					res.Fail = core.Fail("transferred_but_rule_says_up_to_date", fmt.Sprintf("%q: same size and content, -c given: the file was replaced (inode %d -> %d)", s.Path, b.Ino, a.Ino), ff...)
+					return res
+				}
+				if want, _ := tm.Snapshot(filepath.Join(sr.Dir, "src"), false); want.Find(s.Path).Sum != a.Sum {
+					res.Fail = core.Fail("content_mismatch", s.Path, ff...)
+					return res
+				}
+			}
+			res.Nontrivial = true
+			res.Outcome = "ok/checksum-rule"
+			return res
+		}
+		// second run on the result of the first
+		dst2 := filepath.Join(sr.Dir, "dst")
+		mid, _ := tm.Snapshot(dst2, false)
+		base := sr.Dir
+		out2 := drive.Run(drive.Job{Arr: c.arr, Args: c.args, Base: base, Sources: []string{"src/"}, Dest: dst2})
+		cnt(&res, "transitions", 1)
+		if !out2.OK() {
+			res.Fail = core.Fail("session_failed", "second run: "+out2.ErrString()+" | "+tail(out2.Stderr, 300), ff...)
+			return res
+		}
+		after, _ := tm.Snapshot(dst2, false)
+		cnt(&res, "states", int64(len(after)))
+		cnt(&res, "traces_validated_against_impl", 2)
+		if e.I {
+			// -I: every file is transferred again; content and metadata must be as after the first run
+			if d := tm.Diff(mid, after, tm.Full); len(d) > 0 {
+				// directory mtimes change when files are replaced inside them
+				var real []string
+				for _, x := range d {
+					if !strings.Contains(x, "mtime") {
+						real = append(real, x)
+					}
+				}
+				if len(real) > 0 {
+					res.Fail = core.Fail("repeat_sync_changed_destination", trunc(strings.Join(real, " ; "), 400), ff...)
+					return res
+				}
+			}
+			for _, a := range after {
+				if b := mid.Find(a.Path); b != nil && a.Type == tm.Reg && a.Ino == b.Ino && src.Find(a.Path) != nil {
+					res.Fail = core.Fail("not_transferred_but_rule_says_transfer", fmt.Sprintf("%q was not transferred again although -I was given", a.Path), ff...)
+					return res
+				}
+			}
+			res.Nontrivial = true
+			res.Outcome = "ok/-I"
+			return res
+		}
+		if d := tm.Diff(mid, after, tm.Full); len(d) > 0 {
+			res.Fail = core.Fail("repeat_sync_changed_destination", trunc(strings.Join(d, " ; "), 400), ff...)
+			return res
+		}
+		for _, a := range after {
+			if b := mid.Find(a.Path); b == nil || a.Ino != b.Ino {
+				res.Fail = core.Fail("repeat_sync_replaced_entry", fmt.Sprintf("%q is a different file system object after the second run", a.Path), ff...)
+				return res
+			}
+		}
+		res.Nontrivial = true
+		res.Outcome = "ok/no-op"
+		return res
+	}}
+}
+
 func init() {
 	core.Register(&core.Prop{
 		ID:    "C12",
 		Level: "model_checking",
 		Rule: "table: the complete decision table {missing, same size, different size} x {mtime equal, +1s, -1s, sub-second only, far apart, previous second +0.6 s, next second +0.4 s, same second +0.999999999 s} x {content equal, different} x {default,-c,-I,-cI} x {-t on/off} plus non-regular destination entries, each embedded at first/middle/last position of a 3-file directory, in both receiver roles (library client vs scripted server; daemon module vs scripted uploading client); the scripted reference sender records the requested indices. " +
-			"histories: explicit-state BFS (canonical-state dedup) over {touch +1s/-1s/+0.5s, rewrite same size, rewrite other size} on 2 source files and sync(o) for o in {-rt,-a,-rc,-rtI,-r} as real lib-pull sessions; every sync's request set (decoded from the wire) must equal the reference rule evaluated on the model state, no-op syncs must move no data, and the model's successor state is validated against the real destination. states = table cells + distinct BFS states, transitions = sessions",
+			"histories: explicit-state BFS (canonical-state dedup) over {touch +1s/-1s/+0.5s, rewrite same size, rewrite other size} on 2 source files and sync(o) for o in {-rt,-a,-rc,-rtI,-r} as real lib-pull sessions; every sync's request set (decoded from the wire) must equal the reference rule evaluated on the model state, no-op syncs must move no data, and the model's successor state is validated against the real destination. repeat: whole sessions between the real sender and receiver in 5 arrangements x 6 option sets run twice over a tree of boundary mtimes (0, +-1, pre-1970 with fraction, -2^31, 2^31-1, .999999999) x sizes {0,700} incl. nested entries and symlinks: the second run must leave every entry the same file system object with identical metadata (with -I: every file replaced, nothing else changed); and the -c rule judged with the real sender's list checksums for 10 sizes 0..1 MiB around its 256 KiB buffer (equal content / other mtime must stay, equal size+mtime / one differing byte must be replaced). states = table cells + distinct BFS states, transitions = sessions",
 		Assum: []string{"reference rule as stated in the property", "mtimes written as 'now' by a transfer never equal the alphabet's source mtimes (2009)"},
 		Parts: func(tier string) []core.Part {
-			return []core.Part{{Name: "table", Build: c12BuildTable}, {Name: "histories", Build: c12BuildHistories}}
+			return []core.Part{{Name: "table", Build: c12BuildTable}, {Name: "histories", Build: c12BuildHistories}, {Name: "repeat", Build: c12BuildRepeat}}
 		},
 	})
 }
